@@ -880,7 +880,9 @@ func (interp *Interpreter) cfg(root *node, sc *scope, importPath, pkgName string
 					n.gen = nop
 					src.findex = dest.findex // Set recv address to LHS.
 					dest.typ = src.typ
-				case src.action == aCompositeLit:
+				case src.action == aCompositeLit && (n.kind != defineStmt || isInterface(dest.typ)):
+					// A definition creates a new variable at each execution: do not build the
+					// value in place in that case, unless it is wrapped in an interface.
 					if dest.typ.cat == valueT && dest.typ.rtype.Kind() == reflect.Interface {
 						// Skip optimisation for assigned interface.
 						break
